@@ -137,6 +137,25 @@ Theorem var_store_laws : forall (A : Type) (l : list (string * A)) x v,
 Proof. exact (@ExecProof.var_store_laws). Qed.
 Print Assumptions var_store_laws.
 
+(* arrays, numeric and string: assignment to an element stores into exactly the addressed element (it reads back the
+   value; all other elements, arrays, scalars and the PUT/GET store are untouched), and element designators with
+   different in-range subscripts denote different cells.  In the model the target of LET is fixed by findvar BEFORE the
+   right-hand side is evaluated (cmdlet), so `a$(2) = a$(1) + "cd"` and shift loops `t$(i) = t$(i-1)` obey these laws. *)
+Theorem array_store_laws : forall (num : Type) (e : env num) name dims cells k v,
+  assoc_s (e_arr num e) name = Some (dims, cells) ->
+  let e' := assign num e (TElem name k) v in
+  (exists cells', assoc_s (e_arr num e') name = Some (dims, cells') /\ assoc_z cells' k = Some v /\
+                  forall k', k' <> k -> assoc_z cells' k' = assoc_z cells k') /\
+  (forall other, other <> name -> assoc_s (e_arr num e') other = assoc_s (e_arr num e) other) /\
+  e_scal num e' = e_scal num e /\ e_saved num e' = e_saved num e /\ e_host num e' = e_host num e.
+Proof. exact ExecProof.array_store_laws. Qed.
+Print Assumptions array_store_laws.
+
+Theorem array_cells_distinct : forall dims subs subs' k k',
+  flat_index dims subs 0%Z = Some k -> flat_index dims subs' 0%Z = Some k' -> subs <> subs' -> k <> k'.
+Proof. exact ExecProof.array_cells_distinct. Qed.
+Print Assumptions array_cells_distinct.
+
 (* malformed programs end in a BASIC error *)
 Theorem malformed_line_is_error : forall (tbl : kwtable) lines s m,
   In s lines -> parse_line tbl s = LineErr m -> forall p p', compile tbl lines p <> Ok p'.
